@@ -30,7 +30,7 @@ ImplNewShapeId(s, kind) == IF kind \in GapKinds THEN FirstGap(s)
                            ELSE IF s.turbo >= 0 THEN s.turbo + 1 ELSE MaxPlusOne(s)
 ImplAddShape(s, kind) ==
   LET nid == ImplNewShapeId(s, kind) IN
-  [s EXCEPT !.sh = Append(@, [id |-> nid, kind |-> kind]),
+  [s EXCEPT !.sh = Append(@, [id |-> nid, kind |-> kind, lk |-> "none", rl |-> "none"]),
             !.turbo = IF kind \notin GapKinds /\ s.turbo >= 0 THEN s.turbo + 1 ELSE s.turbo]
 MIN_SID == 256
 MAX_SID == 2147483647
